@@ -99,4 +99,20 @@ PROPS = {
         "assumptions": ["the host is little endian (static_assert in the harness)", "enum names are prefix-free, plain decimal integers are never torn (a torn decimal is legitimately another number)",
                         "for an encoding torn inside its last character both failure and the conversion of all whole characters are accepted (the real C.utf8 facet reports ok and keeps the tail in its state); losing a whole character is not"],
     },
+    "C01": {
+        "engines": [{
+            "id": "C01", "bin": "c01", "flavour": "asan",
+            "runs": {"quick": 150000, "thorough": 10000000},
+            "budget": {"quick": 40, "thorough": 900},
+            "enum_every": {"quick": 50, "thorough": 20},
+        }],
+        "technique": "deterministic simulation with fault injection: seeded calls of the stream-, callback-, facet-, file-system- and allocator-facing part of the safe API with read errors, seek failures, truncation, facet partial/error results, injected errno values and allocation failures; totality oracle (only documented outcomes, bounded seam calls, no leak), ASan/UBSan monitors, per-run watchdog, minimised replay",
+        "level_text": "Covers ONLY the fault-facing subset of C01: io::stream_to_string, io::read_chars, io::read, io::extract, io::get/peek, io::expect, vector input, phrase_parse_stream (stream exceptions off and on), buffer::read_from_opt with failing/throwing readers, narrow_locale/widen_locale/from_std_wstring_locale/to_std_wstring_locale through a simulated codecvt facet (also with torn and garbage input), filesystem::file_size/create_directory/create_directories_recursive/make_directory_range/make_recursive_directory_range/open/open_exn with injected errno values on stat, lstat, mkdir, openat and fopen64 and on a populated scratch directory (missing file, directory, symlink loop, dangling link, ENOTDIR, ENAMETOOLONG), every call also with allocation failures. Oracle: the call returns, or leaves only through its documented channel (bad_alloc only when injected; runtime_error only from widen; fcppt::exception only from open_exn; the caller's own exception only from a throwing callback or a stream with exceptions() enabled); seam calls stay linear in the input (termination); nothing leaks; sanitizers silent. NOT covered: the pure-arithmetic, container, enum, cast, options and string-parsing anchors of C01 (no seam; a defect there is invisible to this check). Sampling, not proof.",
+        "level_note": "Stubs: stream buffers, codecvt facet wrapper, stat/lstat/mkdir/openat/fopen64 interposers, global operator new. Trusted: the harness's table of documented outcomes per call, ASan/UBSan, glibc underneath the interposers.",
+        "rule": "One run = 1-6 calls of registered total functions, two thirds of the runs with one injected fault per call. Every call counts as non-trivial; distinct = distinct plans.",
+        "real": REAL_COMMON + ["the io, parse-stream, buffer, codecvt and filesystem functions listed in the level text", "std::filesystem of libstdc++, the real C.utf8 facet, a real scratch directory"],
+        "stub": ["stream buffers (sim::StreamBuf)", "codecvt facet wrapper (sim::Codecvt)", "stat/lstat/mkdir/openat/fopen64 (errno injection, pass-through otherwise)", "global operator new (injected bad_alloc, tagging)"],
+        "assumptions": ["std::locale construction from the environment (string_conv_locale) is not exercised; LC_ALL=C is forced",
+                        "results are other properties' business: only totality is judged here (plus the obvious size/nothing check of file_size)"],
+    },
 }
